@@ -112,8 +112,12 @@ def run(chk):
                 second = pdextract([ser.iloc[:k], ser.iloc[k:]], seed=seed)
                 form = 'list of two Series'
             elif i % 3 == 1 and strings and len(strings) == len(ex):
-                second = pdextract(ser.astype('category'), seed=seed)
-                form = 'categorical Series'
+                cat = ser.astype('category')
+                if i % 2 == 1:
+                    # categories that no row uses (declared up front, or left behind by a filter) are not examples
+                    cat = cat.cat.add_categories(['ZZ-unused_9', '00'])
+                second = pdextract(cat, seed=seed)
+                form = 'categorical Series' + (' with unused categories' if i % 2 == 1 else '')
             else:
                 second = pdextract(ser, seed=seed)
                 form = 'Series'
